@@ -96,7 +96,6 @@ package prunner
 //@   ensures  [clock] $clock >= old($clock)
 //@   modifies $clock
 
-//@ property C01: prunner.(*PipelineJob).isRunning/ensures* prunner.(*PipelineRunner).runningJobsCount/ensures* prunner.(*PipelineRunner).runningJobsCount/loop* prunner.(*PipelineRunner).resolveScheduleAction/ensures[C01.guard] prunner.(*PipelineRunner).resolveDequeueJobAction/ensures[C01.guard]
 
 // ---------------------------------------------------------------------------------------
 // Ghost state
@@ -285,3 +284,65 @@ package prunner
 //@   ensures  [defs] r.defs == old(r.defs)
 //@   at call (*PipelineRunner).startJob#1: assert [cntPrefix] cnt(r.jobsByPipeline[pipeline][:len(r.jobsByPipeline[pipeline])-1], jobRunning) == old(running(r, pipeline))
 //@   at call (*PipelineRunner).startJob#1: assert [cntLast] running(r, pipeline) == cnt(r.jobsByPipeline[pipeline][:len(r.jobsByPipeline[pipeline])-1], jobRunning)
+
+//@ func (jobTasks).ByName
+//@   lockmode R
+//@   ensures  [elem] res == nil || exists i :: 0 <= i && i < len(jt) && res == jt[i] && jt[i].Name == name
+//@   modifies nothing
+//@   loop 1 invariant [bounds] 0 <= $i + 1 && $i + 1 <= len(jt)
+
+//@ func toStatus
+//@   lockmode any
+//@   modifies nothing
+
+//@ func (*PipelineRunner).HandleTaskChange
+//@   lockmode none
+//@   ensures  [T] Tjobs()
+//@   ensures  [defs] r.defs == old(r.defs)
+
+//@ func (*PipelineRunner).HandleStageChange
+//@   lockmode none
+//@   ensures  [T] Tjobs()
+//@   ensures  [defs] r.defs == old(r.defs)
+//@   ensures  [lists] same("map(map[string][]*PipelineJob)") && same("map(map[uuid.UUID]*PipelineJob)") && same(PipelineJob.Start) && same(PipelineJob.Canceled) && same(PipelineJob.Completed)
+
+//@ func (*PipelineRunner).ReadJob
+//@   lockmode none
+//@   ensures  [C15.found] (res == nil) <==> (id in old(r.jobsByID))
+//@   ensures  [notFound] res != nil ==> res == ErrJobNotFound
+//@   ensures  [readonly] unchangedHeap()
+
+//@ func (*PipelineRunner).IterateJobs
+//@   lockmode none
+//@   ensures  [readonly] unchangedHeap()
+
+//@ func (*PipelineRunner).ListPipelines
+//@   lockmode none
+//@   ensures  [readonly] same("map(map[string][]*PipelineJob)") && same("map(map[uuid.UUID]*PipelineJob)") && same(PipelineJob.Start) && same(PipelineJob.Canceled) && same(PipelineJob.Completed) && r.defs == old(r.defs)
+//@   loop 1 invariant [ri] RI(r) && r.defs == old(r.defs) && same("map(map[string][]*PipelineJob)") && same("map(map[uuid.UUID]*PipelineJob)") && same(PipelineJob.Start) && same(PipelineJob.Canceled) && same(PipelineJob.Completed) && same("mem(*PipelineJob)")
+
+//@ func (pipelineJobBy).Sort
+//@   lockmode any
+//@   trusted sort.Sort permutes the slice in place using Len/Less/Swap of pipelineJobsSorter
+//@   ensures [perm] sameOutside("mem(*PipelineJob)", jobs) && (old(all(jobs, nonNil)) ==> all(jobs, nonNil))
+//@   modifies mem(*PipelineJob)
+
+//@ func removeJobFromList
+//@   lockmode W
+//@   requires [elems] all(jobs, nonNil) && jobToRemove != nil
+//@   ensures  [result] base(res) == base(jobs) && off(res) == off(jobs) && (len(res) == len(jobs) || len(res) == len(jobs) - 1) && all(res, nonNil)
+//@   ensures  [frame] sameOutside("mem(*PipelineJob)", jobs)
+//@   modifies mem(*PipelineJob)
+//@   loop 1 invariant [bounds] 0 <= $i + 1 && $i + 1 <= len(jobs) && same("mem(*PipelineJob)")
+
+// ---------------------------------------------------------------------------------------
+// Mapping of obligations to the fixed property ids (glob patterns on obligation names)
+//
+//@ property C01: prunner.(*PipelineJob).isRunning/ensures* prunner.(*PipelineRunner).runningJobsCount/ensures* prunner.(*PipelineRunner).runningJobsCount/loop* prunner.*/ensures[C01.*] prunner.*/call-pre[(*PipelineRunner).startJob.slotFree]* prunner.*/call-pre[(*PipelineRunner).startJob.notStarted]* prunner.*/call-pre[(*PipelineRunner).startJob.offList]* prunner.*/ensures[T] prunner.*/loop*/inv-*[T] prunner.*/monitor[RI] prunner.*/ensures[ri] prunner.*/call-pre[*.ri]* prunner.*/assert[C01.*] prunner.*/assert[cnt*] lemma/cntFrame*
+//@ property C03: prunner.*/ensures[C03.*] prunner.*/monitor[RI] prunner.*/ensures[ri] prunner.*/call-pre[*.ri]* prunner.(*PipelineRunner).startJobsOnWaitList/loop* prunner.(*PipelineRunner).startJob/ensures[skipCanceled] prunner.removeJobFromWaitList/*
+//@ property C04: prunner.*/ensures[C04.*] prunner.(*PipelineRunner).startJob/ensures[skipCanceled] prunner.*/ensures[T] prunner.(*PipelineJob).markAsCanceled/* prunner.*/call-pre[(*PipelineRunner).startJob.*]*
+//@ property C05: prunner.*/ensures[C05.*] prunner.*/monitor[RI] prunner.*/ensures[ri] prunner.*/call-pre[*.ri]* prunner.removeJobFromWaitList/* prunner.(*PipelineRunner).runningJobsCount/* prunner.*/ensures[C15.reject] prunner.*/ensures[C15.accept] lemma/cntFrame*
+//@ property C06: prunner.*/ensures[C06.*] prunner.(*PipelineRunner).ScheduleAsync/ensures[C05.queue] prunner.(*PipelineRunner).ScheduleAsync/ensures[C05.replace] prunner.(*PipelineRunner).ScheduleAsync/ensures[C05.start] prunner.(*PipelineRunner).startJobsOnWaitList/loop* prunner.*/call-pre[(*PipelineRunner).startJob.offList]* prunner.removeJobFromWaitList/* prunner.*/monitor[RI]
+//@ property C07: prunner.*/ensures[C07.*] prunner.*/call-pre[(*PipelineRunner).startJob.timerDone]* prunner.*/ensures[C03.timerTruth] prunner.*/ensures[C03.progress] prunner.(*PipelineRunner).ScheduleAsync/ensures[C05.replace] prunner.(*PipelineRunner).startJob/ensures[skipCanceled] prunner.(*PipelineRunner).resolveDequeueJobAction/ensures*
+//@ property C15: prunner.*/ensures[C15.*] prunner.(*PipelineRunner).resolveScheduleAction/ensures[range] prunner.(*PipelineRunner).isRunning/loop*
+//@ property C16: prunner.*/ensures[C16.*] prunner.*/ensures[defs] prunner.(*PipelineRunner).resolveDequeueJobAction/ensures[C03.dequeueDecision]
